@@ -671,7 +671,7 @@ MANIFEST_ENTRY = dict(
               'arity, dimension bookkeeping and a 140-row nesting table decided as first-order term equalities (scalar leaves by z3); '
               'bounded numerical nesting as complement',
     text='For all 107 functions carrying __param_names__: the unpacked names equal the declared names in order, no path raises for '
-         'parameters in the documented bounds, one parameter fewer is rejected, the result is from_phi of a density of the right '
+         'parameters in the documented bounds, one parameter fewer or one more is rejected (asked of every model), the result is from_phi of a density of the right '
          'dimension on default_grid(pts) with the requested sample sizes, and every integrator/constructor is applied to a density of '
          'its own dimension. The nesting table (zero migration, zero-length epochs, equal asymmetric rates, zero/equal selection) is '
          'proved as equality of the wiring terms for all parameter values, using two axioms that are themselves discharged on '
